@@ -4,15 +4,6 @@ From SC Require Import Lib.Prelude Lib.Int Lib.Host Model.Math Proofs.Math Model
   Proofs.VaultSpec Proofs.VaultToken Proofs.VaultOps Proofs.VaultRate Proofs.VaultTrips Proofs.VaultLive Run.C05 Proofs.C05Tables Proofs.VaultAllow.
 From Coq Require Import ZifyBool.
 
-(* the owner whose balance a getter reads lies in the observed universe *)
-Definition call_owner_ok (n : N) (cl : call) : bool :=
-  match cl with
-  | Withdraw _ _ ow _ _ | Redeem _ _ ow _ _ => (ow <? n)%N
-  | Query (QMaxWithdraw o) | Query (QMaxRedeem o) => (o <? n)%N
-  | _ => true
-  end.
-Definition wf_call_obs (n : N) (cl : call) : bool := wf_call cl && call_owner_ok n cl.
-
 Ltac andb_split := repeat (apply andb_true_intro; split).
 
 (* ---------- an operation returns what its preview returned ---------- *)
@@ -38,9 +29,20 @@ Proof. intros Hn Ha. rewrite Hn. apply tab2_ext. intros. apply allowance_ext. ex
 
 Lemma deposit_like_model c n s s' au evs a sh r f o :
   deposit_effect s s' a sh r f o -> auth_full au o = true -> evs = [(0%N, o, f, r, a, sh)] ->
+  (f < n)%N -> (o < n)%N -> 0 <= a <= bal (asset s) f -> 0 <= sh ->
+  (o <> f -> a <= allowance (now s) (asset s) f o) ->
   deposit_like n (observe c n s) (observe c n s') au evs a sh r f o = true.
 Proof.
-  intros He Hau ->. unfold deposit_like. rewrite Hau, eqb_events_refl, andb_true_r. cbn [andb observe o_ab o_sb o_sup o_aal o_sal].
+  intros He Hau -> Hfn Hon Ha Hsh Hal. unfold deposit_like. rewrite Hau, eqb_events_refl, andb_true_r.
+  assert (H1 : (0 <=? a) = true) by lia. assert (H2 : (0 <=? sh) = true) by lia.
+  assert (H3 : (a <=? fn1 (o_ab (observe c n s)) f) = true).
+  { cbn [observe o_ab]. change (map (bal (asset s)) (univ n)) with (tab1 n (bal (asset s))). rewrite fn1_tab1 by exact Hfn. lia. }
+  assert (H4 : N.eqb o f || (a <=? fn2 (o_aal (observe c n s)) f o) = true).
+  { destruct (N.eqb o f) eqn:Eo; [reflexivity|]. cbn [orb observe o_aal].
+    change (map (fun o0 => map (allowance (now s) (asset s) o0) (univ n)) (univ n)) with (tab2 n (allowance (now s) (asset s))).
+    rewrite fn2_tab2 by assumption. apply N.eqb_neq in Eo. specialize (Hal Eo). lia. }
+  rewrite H1, H2, H3, H4. clear H3 H4.
+  cbn [andb observe o_ab o_sb o_sup o_aal o_sal].
   andb_split.
   - apply eqb_lz_of_eq. change (tab1 n (bal (asset s')) = tab1 n (move (fn1 (tab1 n (bal (asset s)))) f V a)).
     rewrite tab1_move, (de_abal _ _ _ _ _ _ _ He). reflexivity.
@@ -58,13 +60,22 @@ Qed.
 
 Lemma withdraw_like_model c n s s' au evs a sh r ow o :
   withdraw_effect s s' a sh r ow o -> auth_root au o = true -> evs = [(1%N, o, r, ow, a, sh)] ->
-  (ow < n)%N -> sh <= bal (share s) ow -> a <= total_assets s ->
+  (ow < n)%N -> (o < n)%N -> 0 <= sh <= bal (share s) ow -> 0 <= a <= total_assets s ->
+  (o <> ow -> sh <= allowance (now s) (share s) ow o) ->
   withdraw_like n (observe c n s) (observe c n s') au evs a sh r ow o = true.
 Proof.
-  intros He Hau -> Hn Hsh Ha. unfold withdraw_like. rewrite Hau, eqb_events_refl, andb_true_r. cbn [andb observe o_ab o_sb o_sup o_ta o_aal o_sal].
+  intros He Hau -> Hn Hon Hsh Ha Hal. unfold withdraw_like. rewrite Hau, eqb_events_refl, andb_true_r.
+  assert (H1 : (0 <=? a) = true) by lia. assert (H2 : (0 <=? sh) = true) by lia.
+  assert (H4 : N.eqb o ow || (sh <=? fn2 (o_sal (observe c n s)) ow o) = true).
+  { destruct (N.eqb o ow) eqn:Eo; [reflexivity|]. cbn [orb observe o_sal].
+    change (map (fun o0 => map (allowance (now s) (share s) o0) (univ n)) (univ n)) with (tab2 n (allowance (now s) (share s))).
+    rewrite fn2_tab2 by assumption. apply N.eqb_neq in Eo. specialize (Hal Eo). lia. }
+  rewrite H1, H2, H4. clear H4.
+  cbn [andb observe o_ab o_sb o_sup o_ta o_aal o_sal].
   andb_split.
   - cbn [o_sb observe]. change (map (bal (share s)) (univ n)) with (tab1 n (bal (share s))). rewrite fn1_tab1 by exact Hn. lia.
   - lia.
+  - reflexivity.
   - apply eqb_lz_of_eq. change (tab1 n (bal (asset s')) = tab1 n (move (fn1 (tab1 n (bal (asset s)))) V r a)).
     rewrite tab1_move, (we_abal _ _ _ _ _ _ _ He). reflexivity.
   - apply eqb_lz_of_eq.
@@ -90,13 +101,14 @@ Proof. intros H. cbn [observe o_ab]. rewrite H. reflexivity. Qed.
 Lemma mon_call_model c n s cl : wf_cfg c -> (0 < n)%N -> Inv c s -> wf_call_obs n cl = true ->
   mon_call c n (observe c n s) (model_item c n s cl) = true.
 Proof.
-  intros Hc Hn Hi Hwf. unfold wf_call_obs in Hwf. apply andb_prop in Hwf as [Hwf Hown].
+  intros Hc Hn Hi Hwf. unfold wf_call_obs in Hwf. apply andb_prop in Hwf as [Hwf Huniv]. apply andb_prop in Hwf as [Hwf Hown].
+  unfold call_univ in Huniv. apply andb_prop in Huniv as [Huniv _].
   destruct (wf_call_parts cl Hwf) as (Hnv & Hr).
   destruct (den_pos c s Hc Hi) as (HA1 & HSP & HA & HS & HP).
   unfold model_item, mon_call. cbn [o_ta o_sup observe].
   change (10 ^ c_off c) with (P_of c).
   destruct cl as [a r f op au|x r f op au|a r ow op au|x r ow op au|f t a au|t a|ow sp a l au|f t a au|sp f t a au|ow sp a l au|k|q|sa|so];
-    cbn [call_auths call_amount call_owner_ok pre_values fst snd] in *.
+    cbn [call_auths call_amount call_owner_ok call_parties forallb pre_values fst snd] in *.
   - (* Deposit *)
     andb_split.
     + apply eqb_rz_of_eq. apply (to_shares_spec c s _ _ (Inv_stored c s Hi)); exact Hr.
@@ -107,7 +119,9 @@ Proof.
       andb_split.
       * rewrite Hp. cbn. apply Z.eqb_refl.
       * lia.
-      * apply deposit_like_model; auto.
+      * destruct (deposit_pull _ _ _ _ _ _ _ _ _ _ E) as (_ & Hx & Hsp).
+        destruct (to_shares_floor c s Hc Hi a sh Hr Hp) as (_ & Hsh0 & _).
+        apply deposit_like_model; auto; try lia. intros Hne. destruct (Hsp Hne) as (Hle & _). lia.
   - (* MintS *)
     andb_split.
     + apply eqb_rz_of_eq. apply (to_assets_spec c s _ _ (Inv_stored c s Hi)); exact Hr.
@@ -118,7 +132,9 @@ Proof.
       andb_split.
       * rewrite Hp. cbn. apply Z.eqb_refl.
       * lia.
-      * apply deposit_like_model; auto.
+      * destruct (mint_pull _ _ _ _ _ _ _ _ _ _ E) as (_ & Hx & Hsp).
+        destruct (to_assets_ceil c s Hc Hi x a Hr Hp) as (Hx0 & _).
+        apply deposit_like_model; auto; try lia. intros Hne. destruct (Hsp Hne) as (Hle & _). lia.
   - (* Withdraw *)
     assert (Hbr : MIN128 <= bal (share s) ow <= MAX128) by (apply tok_inv_bal_range; apply Hi).
     assert (Hown' : (ow < n)%N) by lia.
@@ -141,7 +157,7 @@ Proof.
       * rewrite Hp. cbn. apply Z.eqb_refl.
       * lia.
       * rewrite Hm. lia.
-      * apply withdraw_like_model; auto; lia.
+      * apply withdraw_like_model; auto; try lia. intros Hne. pose proof (withdraw_spend _ _ _ _ _ _ _ _ _ _ E Hne). lia.
   - (* Redeem *)
     assert (Hown' : (ow < n)%N) by lia.
     andb_split.
@@ -164,11 +180,15 @@ Proof.
       * rewrite Hp. cbn. apply Z.eqb_refl.
       * lia.
       * unfold max_redeem in *. lia.
-      * apply withdraw_like_model; auto; lia.
+      * apply withdraw_like_model; auto; try lia. intros Hne. pose proof (redeem_spend _ _ _ _ _ _ _ _ _ _ E Hne). lia.
   - (* ATransfer *)
     unfold step. cbn [step_res]. unfold lift_tok.
     destruct (tok_transfer (auth_root au) (asset s) f t a) as [t1|] eqn:E; cbn [bind fst snd]; [|reflexivity].
     apply tok_transfer_ok in E. destruct E as (Hau & Hx & ->). rewrite Hau. cbn [andb].
+    assert (H1 : (0 <=? a) = true) by lia.
+    assert (H2 : (a <=? fn1 (o_ab (observe c n s)) f) = true).
+    { cbn [observe o_ab]. change (map (bal (asset s)) (univ n)) with (tab1 n (bal (asset s))). rewrite fn1_tab1 by lia. lia. }
+    rewrite H1, H2. clear H2. cbn [andb].
     andb_split; cbn [observe o_ab o_sb o_sup o_sal set_asset asset share now bal]; unfold total_supply;
       cbn [set_asset share]; try apply eqb_lz_refl; try apply eqb_llz_refl; try apply Z.eqb_refl.
     apply eqb_lz_of_eq. change (tab1 n (move (bal (asset s)) f t a) = tab1 n (move (fn1 (tab1 n (bal (asset s)))) f t a)).
@@ -177,6 +197,7 @@ Proof.
     unfold step. cbn [step_res]. unfold lift_tok.
     destruct (update (asset s) None (Some t) a) as [t1|] eqn:E; cbn [bind fst snd]; [|reflexivity].
     apply update_mint in E. destruct E as (Hx & Hsup & ->).
+    assert (H1 : (0 <=? a) = true) by lia. rewrite H1. cbn [andb].
     andb_split; cbn [observe o_ab o_sb o_sup o_sal set_asset asset share now bal]; unfold total_supply;
       cbn [set_asset share]; try apply eqb_lz_refl; try apply eqb_llz_refl; try apply Z.eqb_refl.
     apply eqb_lz_of_eq.
@@ -194,6 +215,10 @@ Proof.
     unfold step. cbn [step_res]. unfold lift_tok.
     destruct (tok_transfer (auth_root au) (share s) f t a) as [t1|] eqn:E; cbn [bind fst snd]; [|reflexivity].
     apply tok_transfer_ok in E. destruct E as (Hau & Hx & ->). rewrite Hau. cbn [andb].
+    assert (H1 : (0 <=? a) = true) by lia.
+    assert (H2 : (a <=? fn1 (o_sb (observe c n s)) f) = true).
+    { cbn [observe o_sb]. change (map (bal (share s)) (univ n)) with (tab1 n (bal (share s))). rewrite fn1_tab1 by lia. lia. }
+    rewrite H1, H2. clear H2. cbn [andb].
     andb_split; cbn [observe o_ab o_sb o_sup o_aal set_share asset share now bal supply]; unfold total_supply;
       cbn [set_share share supply]; try apply eqb_lz_refl; try apply eqb_llz_refl; try apply Z.eqb_refl.
     apply eqb_lz_of_eq. change (tab1 n (move (bal (share s)) f t a) = tab1 n (move (fn1 (tab1 n (bal (share s)))) f t a)).
@@ -202,6 +227,15 @@ Proof.
     unfold step. cbn [step_res]. unfold lift_tok.
     destruct (tok_transfer_from c (now s) (auth_root au) (share s) sp f t a) as [t1|] eqn:E; cbn [bind fst snd]; [|reflexivity].
     apply tok_transfer_from_ok in E. destruct E as (Hau & Hx & t2 & Esp & ->). rewrite Hau. cbn [andb].
+    destruct (spend_allowance_ok _ _ _ _ _ _ _ Esp) as (Hxa & _).
+    assert (H1 : (0 <=? a) = true) by lia.
+    assert (H2 : (a <=? fn1 (o_sb (observe c n s)) f) = true).
+    { cbn [observe o_sb]. change (map (bal (share s)) (univ n)) with (tab1 n (bal (share s))). rewrite fn1_tab1 by lia. lia. }
+    assert (H3 : (a <=? fn2 (o_sal (observe c n s)) f sp) = true).
+    { cbn [observe o_sal].
+      change (map (fun o0 => map (allowance (now s) (share s) o0) (univ n)) (univ n)) with (tab2 n (allowance (now s) (share s))).
+      rewrite fn2_tab2 by lia. lia. }
+    rewrite H1, H2, H3. clear H2 H3. cbn [andb].
     andb_split; cbn [observe o_ab o_sb o_sup o_aal set_share asset share now bal supply]; unfold total_supply;
       cbn [set_share share supply]; try apply eqb_lz_refl; try apply eqb_llz_refl; try apply Z.eqb_refl.
     apply eqb_lz_of_eq. change (tab1 n (move (bal (share s)) f t a) = tab1 n (move (fn1 (tab1 n (bal (share s)))) f t a)).
@@ -237,7 +271,7 @@ Qed.
 
 (* ---------- mon_step on one model step ---------- *)
 Lemma wf_call_obs_wf n cl : wf_call_obs n cl = true -> wf_call cl = true.
-Proof. unfold wf_call_obs. intros H. apply andb_prop in H as [H _]. exact H. Qed.
+Proof. unfold wf_call_obs. intros H. apply andb_prop in H as [H _]. apply andb_prop in H as [H _]. exact H. Qed.
 
 Lemma stored_decimals c s : Stored c s -> in_u32 (c_adec c + c_off c) = true ->
   vault_decimals c s = Ok (c_adec c + c_off c).
@@ -271,6 +305,17 @@ Proof.
   destruct (in_u32 (c_adec c + c_off c)) eqn:E2; [discriminate|]. right; reflexivity.
 Qed.
 
+Lemma obs_nonneg_observe c n s : Inv c s -> obs_nonneg (observe c n s) = true.
+Proof.
+  intros Hi. pose proof (Inv_A_nonneg c s Hi). pose proof (Inv_S_nonneg c s Hi). destruct Hi as (Ha & Hs & _).
+  unfold obs_nonneg. cbn [observe o_ab o_sb o_sup o_ta].
+  assert (H1 : forallb (Z.leb 0) (map (bal (asset s)) (univ n)) = true).
+  { apply forallb_forall. intros x Hx. apply in_map_iff in Hx. destruct Hx as (a & <- & _). destruct Ha as (Hn & _). specialize (Hn a). lia. }
+  assert (H2 : forallb (Z.leb 0) (map (bal (share s)) (univ n)) = true).
+  { apply forallb_forall. intros x Hx. apply in_map_iff in Hx. destruct Hx as (a & <- & _). destruct Hs as (Hn & _). specialize (Hn a). lia. }
+  rewrite H1, H2. cbn [andb]. lia.
+Qed.
+
 Lemma mon_step_model c n s cl : wf_cfg c -> in_u32 (c_adec c + c_off c) = true -> (0 < n)%N -> Inv c s ->
   wf_call_obs n cl = true ->
   mon_step c n (observe c n s) (model_item c n s cl) = true.
@@ -279,6 +324,7 @@ Proof.
   pose proof (mon_call_model c n s cl Hc Hn Hi Hwf) as Hcall.
   destruct (step_inv_rate c s cl Hc Hi Hw) as (Hi' & Hrate).
   unfold mon_step. unfold model_item in *. rewrite Hcall, andb_true_r. clear Hcall.
+  rewrite Hwf, obs_shape_observe, (obs_nonneg_observe c n _ Hi'). cbn [andb].
   andb_split.
   - cbn [observe o_dec]. rewrite (stored_decimals c _ (Inv_stored c _ Hi') Hdu). apply Z.eqb_refl.
   - cbn [observe o_asset]. destruct (Inv_stored c _ Hi') as [Hva _]. unfold query_asset. rewrite Hva. reflexivity.
@@ -341,10 +387,10 @@ Proof.
   split; [lia|]. intros Hp. rewrite Halu in Hal2. unfold lu_of in Hal2. lia.
 Qed.
 
-Lemma mon_allow_model c n s st cl : Inv c s -> wf_call cl = true -> Ghost c n s st ->
-  mon_allow c n st (model_item c n s cl) = true.
+Lemma mon_ghost_model c n s st cl : Inv c s -> wf_call cl = true -> Ghost c n s st ->
+  mon_ghost c n st (model_item c n s cl) = true.
 Proof.
-  intros Hi Hwfc Hg. pose proof Hg as [Hobs Hnow Halu Hslu]. unfold mon_allow, model_item.
+  intros Hi Hwfc Hg. pose proof Hg as [Hobs Hnow Halu Hslu]. unfold mon_ghost, model_item.
   unfold step. destruct (step_res c s cl) as [[s' [v evs]]|] eqn:E; cbn [fst snd].
   2:{ destruct cl; try reflexivity; cbn [pre_values fst].
       - (* Deposit *)
@@ -376,6 +422,7 @@ Proof.
   - (* AApprove *)
     unfold lift_tok, tok_approve in E. bsplit E t1 E1. inversion E; subst. bsplit E1 u Eg. apply guard_ok in Eg.
     apply set_allowance_ok in E1. destruct E1 as (Ha & _ & Hl & ->). rewrite Eg. cbn [andb].
+    assert (H0a : (0 <=? a) = true) by lia. rewrite H0a. cbn [andb].
     apply eqb_llz_of_eq. cbn [observe o_aal set_asset asset now].
     change (map (fun o => map (allowance (now s) (set_allow (asset s) (upd2 (allow (asset s)) ow sp (a, l))) o) (univ n)) (univ n))
       with (tab2 n (allowance (now s) (set_allow (asset s) (upd2 (allow (asset s)) ow sp (a, l))))).
@@ -400,6 +447,7 @@ Proof.
   - (* SApprove *)
     unfold lift_tok, tok_approve in E. bsplit E t1 E1. inversion E; subst. bsplit E1 u Eg. apply guard_ok in Eg.
     apply set_allowance_ok in E1. destruct E1 as (Ha & _ & Hl & ->). rewrite Eg. cbn [andb].
+    assert (H0a : (0 <=? a) = true) by lia. rewrite H0a. cbn [andb].
     apply eqb_llz_of_eq. cbn [observe o_sal set_share share now].
     change (map (fun o => map (allowance (now s) (set_allow (share s) (upd2 (allow (share s)) ow sp (a, l))) o) (univ n)) (univ n))
       with (tab2 n (allowance (now s) (set_allow (share s) (upd2 (allow (share s)) ow sp (a, l))))).
@@ -411,6 +459,16 @@ Proof.
     apply andb_true_intro. split; apply eqb_llz_of_eq.
     + exact (tab2_aged n (m_alu st) (now s) k (asset s) Hk Halu).
     + exact (tab2_aged n (m_slu st) (now s) k (share s) Hk Hslu).
+Qed.
+
+Lemma mon_allow_model c n s st cl : Inv c s -> wf_call cl = true -> Ghost c n s st ->
+  mon_allow c n st (model_item c n s cl) = true.
+Proof.
+  intros Hi Hwfc Hg. unfold mon_allow. rewrite (mon_ghost_model c n s st cl Hi Hwfc Hg), andb_true_r.
+  destruct Hg as [Hobs Hnow Halu Hslu]. unfold model_item, next_now. cbn [snd observe o_now].
+  unfold step. destruct (step_res c s cl) as [[s' [v evs]]|] eqn:E; cbn [fst snd].
+  - destruct (step_res_frame c s cl s' (v, evs) E) as (Fn & _ & _). rewrite Fn, Hnow. destruct cl; apply Z.eqb_refl.
+  - rewrite Hnow. destruct cl; apply Z.eqb_refl.
 Qed.
 
 Lemma ghost_next c n s st cl : Ghost c n s st -> Ghost c n (fst (step c s cl)) (mnext st (model_item c n s cl)).
@@ -445,12 +503,24 @@ Proof.
 Qed.
 
 (* ---------- whole traces ---------- *)
-Definition wf_hdr (c : cfg) (n : N) : bool := (0 <=? c_off c) && (0 <=? c_adec c) && (0 <? n)%N.
+Lemma observe_init c n now0 : in_u32 (c_adec c + c_off c) = true ->
+  observe c n (init c now0) = empty_obs c n now0.
+Proof.
+  intros Hdu. unfold observe, empty_obs.
+  assert (Hst : Stored c (init c now0)) by (split; reflexivity).
+  rewrite (stored_decimals c _ Hst Hdu). cbn [init now asset share query_asset v_asset of_option].
+  change (N.eqb ASSET_ADDR ASSET_ADDR) with true.
+  assert (Hz : forall o, map (allowance now0 empty_token o) (univ n) = map (fun _ => 0) (univ n)).
+  { intros o. apply map_ext. intros sp. unfold allowance, allowance_data. cbn. destruct (0 <? now0); reflexivity. }
+  unfold tab1, tab2, total_supply, total_assets. cbn [init asset share bal supply empty_token].
+  f_equal; apply map_ext; intros o; apply Hz.
+Qed.
 
-Theorem check_accepts_model c n now0 cs : wf_hdr c n = true -> forallb (wf_call_obs n) cs = true ->
+Theorem check_accepts_model c n now0 cs : wf_hdr c n = true -> in_u32 now0 = true ->
+  forallb (wf_call_obs n) cs = true ->
   check (observe_model c n now0 cs) = (0%N, 0%N, 0%N).
 Proof.
-  intros Hh Hwf. unfold wf_hdr in Hh. apply andb_prop in Hh as [Hh Hn]. apply andb_prop in Hh as [Hoff Hdec].
+  intros Hh Hnow Hwf. pose proof Hh as Hh0. unfold wf_hdr in Hh. apply andb_prop in Hh as [Hh Hn]. apply andb_prop in Hh as [Hoff Hdec].
   assert (Hc : wf_cfg c) by (unfold wf_cfg; lia). assert (Hn' : (0 < n)%N) by lia.
   unfold check, observe_model. destruct (construct c now0) as [[s0 d]|] eqn:Ec.
   - destruct (construct_ok c now0 s0 d Ec) as (-> & -> & Hmax & Hdu).
@@ -461,15 +531,17 @@ Proof.
     + unfold monitor. cbn [fst snd h_cfg h_ctor h_n h_now h_obs0].
       assert (Hm : mon_header {| h_cfg := c; h_n := n; h_now := now0; h_ctor := Ok (c_adec c + c_off c);
                                  h_obs0 := observe c n (init c now0) |} = true).
-      { unfold mon_header. cbn [h_cfg h_ctor h_obs0 observe o_sup o_ta].
-        unfold total_supply, total_assets. cbn. rewrite Z.eqb_refl. cbn [andb]. lia. }
-      rewrite Hm. apply mon_from_model; auto.
-      constructor; cbn [minit m_obs m_now m_alu m_slu h_obs0 h_now init now asset share]; auto.
+      { unfold mon_header. cbn [h_cfg h_ctor h_obs0 h_n h_now]. rewrite Hh0, Hnow. cbn [andb].
+        rewrite (observe_init c n now0 Hdu), eqb_obs_refl, Z.eqb_refl. cbn [andb]. rewrite andb_true_r. lia. }
+      rewrite Hm. destruct (model_items c n (init c now0) cs) eqn:Eit.
+      * reflexivity.
+      * rewrite <- Eit. apply mon_from_model; auto.
+        constructor; cbn [minit m_obs m_now m_alu m_slu h_obs0 h_now init now asset share]; auto.
   - f_equal. f_equal.
     + unfold diff. cbn [fst snd h_cfg h_ctor h_now]. rewrite Ec. reflexivity.
     + unfold monitor. cbn [fst snd].
       assert (Hm : mon_header {| h_cfg := c; h_n := n; h_now := now0; h_ctor := Fail; h_obs0 := observe c n (blank now0) |} = true).
-      { unfold mon_header. cbn [h_cfg h_ctor]. destruct (construct_fail c now0 Ec) as [H|H].
+      { unfold mon_header. cbn [h_cfg h_ctor h_n h_now]. rewrite Hh0, Hnow. cbn [andb]. destruct (construct_fail c now0 Ec) as [H|H].
         - assert (E : (c_max_off c <? c_off c) = true) by lia. rewrite E. reflexivity.
         - unfold in_u32 in H. apply orb_true_iff. right. lia. }
       rewrite Hm. reflexivity.
@@ -482,42 +554,42 @@ Definition z3 : list Z := [0; 0; 0]%Z.
 Definition zz3 : list (list Z) := [z3; z3; z3].
 Definition hdr0 : header :=
   {| h_cfg := cfg0; h_n := 3; h_now := 10%Z; h_ctor := Ok 7%Z;
-     h_obs0 := {| o_ab := z3; o_sb := z3; o_sup := 0; o_ta := 0; o_aal := zz3; o_sal := zz3; o_dec := 7; o_asset := 1 |} |}.
-Definition funded : obs := {| o_ab := [0; 100; 0]%Z; o_sb := z3; o_sup := 0; o_ta := 0; o_aal := zz3; o_sal := zz3; o_dec := 7; o_asset := 1 |}.
+     h_obs0 := {| o_ab := z3; o_sb := z3; o_sup := 0; o_ta := 0; o_aal := zz3; o_sal := zz3; o_dec := 7; o_asset := 1; o_now := 10 |} |}.
+Definition funded : obs := {| o_ab := [0; 100; 0]%Z; o_sb := z3; o_sup := 0; o_ta := 0; o_aal := zz3; o_sal := zz3; o_dec := 7; o_asset := 1; o_now := 10 |}.
 Definition fund1 : item := (AMint 1 100, (Ok 0%Z, Ok 0%Z), Ok (0%Z, []), funded).
 (* donation of 9 then a deposit of 10: exact shares 10 * 1 / 10 = 1 *)
-Definition donated : obs := {| o_ab := [9; 100; 0]%Z; o_sb := z3; o_sup := 0; o_ta := 9; o_aal := zz3; o_sal := zz3; o_dec := 7; o_asset := 1 |}.
+Definition donated : obs := {| o_ab := [9; 100; 0]%Z; o_sb := z3; o_sup := 0; o_ta := 9; o_aal := zz3; o_sal := zz3; o_dec := 7; o_asset := 1; o_now := 10 |}.
 Definition don : item := (AMint 0 9, (Ok 0%Z, Ok 0%Z), Ok (0%Z, []), donated).
 Definition good_dep : item :=
   (Deposit 10 1 1 1 [(1, AFull)], (Ok 1%Z, Ok MAX128), Ok (1%Z, [(0, 1, 1, 1, 10%Z, 1%Z)]),
-   {| o_ab := [19; 90; 0]%Z; o_sb := [0; 1; 0]%Z; o_sup := 1; o_ta := 19; o_aal := zz3; o_sal := zz3; o_dec := 7; o_asset := 1 |}).
+   {| o_ab := [19; 90; 0]%Z; o_sb := [0; 1; 0]%Z; o_sup := 1; o_ta := 19; o_aal := zz3; o_sal := zz3; o_dec := 7; o_asset := 1; o_now := 10 |}).
 (* the same deposit rounded up in the user's favour: 2 shares for 10 assets at rate 10 *)
 Definition bad_dep_round_up : item :=
   (Deposit 10 1 1 1 [(1, AFull)], (Ok 2%Z, Ok MAX128), Ok (2%Z, [(0, 1, 1, 1, 10%Z, 2%Z)]),
-   {| o_ab := [19; 90; 0]%Z; o_sb := [0; 2; 0]%Z; o_sup := 2; o_ta := 19; o_aal := zz3; o_sal := zz3; o_dec := 7; o_asset := 1 |}).
+   {| o_ab := [19; 90; 0]%Z; o_sb := [0; 2; 0]%Z; o_sup := 2; o_ta := 19; o_aal := zz3; o_sal := zz3; o_dec := 7; o_asset := 1; o_now := 10 |}).
 (* preview says 1, the operation mints 0 *)
 Definition bad_dep_preview : item :=
   (Deposit 10 1 1 1 [(1, AFull)], (Ok 1%Z, Ok MAX128), Ok (0%Z, [(0, 1, 1, 1, 10%Z, 0%Z)]),
-   {| o_ab := [19; 90; 0]%Z; o_sb := [0; 0; 0]%Z; o_sup := 0; o_ta := 19; o_aal := zz3; o_sal := zz3; o_dec := 7; o_asset := 1 |}).
+   {| o_ab := [19; 90; 0]%Z; o_sb := [0; 0; 0]%Z; o_sup := 0; o_ta := 19; o_aal := zz3; o_sal := zz3; o_dec := 7; o_asset := 1; o_now := 10 |}).
 (* the shares go to somebody who was not named *)
 Definition bad_dep_party : item :=
   (Deposit 10 1 1 1 [(1, AFull)], (Ok 1%Z, Ok MAX128), Ok (1%Z, [(0, 1, 1, 1, 10%Z, 1%Z)]),
-   {| o_ab := [19; 90; 0]%Z; o_sb := [0; 0; 1]%Z; o_sup := 1; o_ta := 19; o_aal := zz3; o_sal := zz3; o_dec := 7; o_asset := 1 |}).
+   {| o_ab := [19; 90; 0]%Z; o_sb := [0; 0; 1]%Z; o_sup := 1; o_ta := 19; o_aal := zz3; o_sal := zz3; o_dec := 7; o_asset := 1; o_now := 10 |}).
 (* nobody authorised the deposit *)
 Definition bad_dep_auth : item :=
   (Deposit 10 1 1 1 [], (Ok 1%Z, Ok MAX128), Ok (1%Z, [(0, 1, 1, 1, 10%Z, 1%Z)]),
-   {| o_ab := [19; 90; 0]%Z; o_sb := [0; 1; 0]%Z; o_sup := 1; o_ta := 19; o_aal := zz3; o_sal := zz3; o_dec := 7; o_asset := 1 |}).
+   {| o_ab := [19; 90; 0]%Z; o_sb := [0; 1; 0]%Z; o_sup := 1; o_ta := 19; o_aal := zz3; o_sal := zz3; o_dec := 7; o_asset := 1; o_now := 10 |}).
 (* redeem of the share pays out 10 of 20 (exact 1 * 20 / 2 = 10) - fine; paying 11 lowers the rate *)
 Definition good_red : item :=
   (Redeem 1 1 1 1 [(1, ARoot)], (Ok 10%Z, Ok 1%Z), Ok (10%Z, [(1, 1, 1, 1, 10%Z, 1%Z)]),
-   {| o_ab := [9; 100; 0]%Z; o_sb := [0; 0; 0]%Z; o_sup := 0; o_ta := 9; o_aal := zz3; o_sal := zz3; o_dec := 7; o_asset := 1 |}).
+   {| o_ab := [9; 100; 0]%Z; o_sb := [0; 0; 0]%Z; o_sup := 0; o_ta := 9; o_aal := zz3; o_sal := zz3; o_dec := 7; o_asset := 1; o_now := 10 |}).
 Definition bad_red_generous : item :=
   (Redeem 1 1 1 1 [(1, ARoot)], (Ok 11%Z, Ok 1%Z), Ok (11%Z, [(1, 1, 1, 1, 11%Z, 1%Z)]),
-   {| o_ab := [8; 101; 0]%Z; o_sb := [0; 0; 0]%Z; o_sup := 0; o_ta := 8; o_aal := zz3; o_sal := zz3; o_dec := 7; o_asset := 1 |}).
+   {| o_ab := [8; 101; 0]%Z; o_sb := [0; 0; 0]%Z; o_sup := 0; o_ta := 8; o_aal := zz3; o_sal := zz3; o_dec := 7; o_asset := 1; o_now := 10 |}).
 (* a failing call that leaves a trace *)
 Definition bad_fail_trace : item :=
   (Redeem 5 1 1 1 [(1, ARoot)], (Ok 50%Z, Ok 1%Z), Fail,
-   {| o_ab := [19; 90; 0]%Z; o_sb := [0; 0; 0]%Z; o_sup := 0; o_ta := 19; o_aal := zz3; o_sal := zz3; o_dec := 7; o_asset := 1 |}).
+   {| o_ab := [19; 90; 0]%Z; o_sb := [0; 0; 0]%Z; o_sup := 0; o_ta := 19; o_aal := zz3; o_sal := zz3; o_dec := 7; o_asset := 1; o_now := 10 |}).
 
 Example monitor_accepts_good : monitor (hdr0, [fund1; don; good_dep; good_red]) = 0.
 Proof. vm_compute. reflexivity. Qed.
@@ -542,33 +614,34 @@ Proof. vm_compute. reflexivity. Qed.
 (* state that lapses although no call changed it is rejected: after one long Advance ... *)
 Local Open Scope N_scope.
 Definition after_dep : obs :=
-  {| o_ab := [19; 90; 0]%Z; o_sb := [0; 1; 0]%Z; o_sup := 1; o_ta := 19; o_aal := zz3; o_sal := zz3; o_dec := 7; o_asset := 1 |}.
+  {| o_ab := [19; 90; 0]%Z; o_sb := [0; 1; 0]%Z; o_sup := 1; o_ta := 19; o_aal := zz3; o_sal := zz3; o_dec := 7; o_asset := 1; o_now := 600010 |}.
 Definition adv_ok : item := (Advance 600000, (Ok 0%Z, Ok 0%Z), Ok (0%Z, []), after_dep).
 (* ... a share balance is gone *)
 Definition adv_lost_balance : item := (Advance 600000, (Ok 0%Z, Ok 0%Z), Ok (0%Z, []),
-  {| o_ab := [19; 90; 0]%Z; o_sb := [0; 0; 0]%Z; o_sup := 1; o_ta := 19; o_aal := zz3; o_sal := zz3; o_dec := 7; o_asset := 1 |}).
+  {| o_ab := [19; 90; 0]%Z; o_sb := [0; 0; 0]%Z; o_sup := 1; o_ta := 19; o_aal := zz3; o_sal := zz3; o_dec := 7; o_asset := 1; o_now := 600010 |}).
 (* ... the total supply reads 0 *)
 Definition adv_lost_supply : item := (Advance 600000, (Ok 0%Z, Ok 0%Z), Ok (0%Z, []),
-  {| o_ab := [19; 90; 0]%Z; o_sb := [0; 1; 0]%Z; o_sup := 0; o_ta := 19; o_aal := zz3; o_sal := zz3; o_dec := 7; o_asset := 1 |}).
+  {| o_ab := [19; 90; 0]%Z; o_sb := [0; 1; 0]%Z; o_sup := 0; o_ta := 19; o_aal := zz3; o_sal := zz3; o_dec := 7; o_asset := 1; o_now := 600010 |}).
 (* ... the vault forgot its asset (every getter that needs it traps: -1) *)
 Definition adv_lost_asset : item := (Advance 600000, (Ok 0%Z, Ok 0%Z), Ok (0%Z, []),
-  {| o_ab := [19; 90; 0]%Z; o_sb := [0; 1; 0]%Z; o_sup := 1; o_ta := -1; o_aal := zz3; o_sal := zz3; o_dec := -1; o_asset := -1 |}).
+  {| o_ab := [19; 90; 0]%Z; o_sb := [0; 1; 0]%Z; o_sup := 1; o_ta := -1; o_aal := zz3; o_sal := zz3; o_dec := -1; o_asset := -1; o_now := 600010 |}).
 (* ... the decimals offset fell back to 0 (vault with offset 3: decimals 10 -> 7) *)
 Definition hdr3 : header :=
   {| h_cfg := {| c_off := 3; c_max_off := 10; c_adec := 7; c_max_ttl := 1000 |}; h_n := 3; h_now := 10%Z; h_ctor := Ok 10%Z;
-     h_obs0 := {| o_ab := z3; o_sb := z3; o_sup := 0; o_ta := 0; o_aal := zz3; o_sal := zz3; o_dec := 10; o_asset := 1 |} |}.
+     h_obs0 := {| o_ab := z3; o_sb := z3; o_sup := 0; o_ta := 0; o_aal := zz3; o_sal := zz3; o_dec := 10; o_asset := 1; o_now := 10 |} |}.
 Definition adv_lost_offset : item := (Advance 600000, (Ok 0%Z, Ok 0%Z), Ok (0%Z, []),
-  {| o_ab := z3; o_sb := z3; o_sup := 0; o_ta := 0; o_aal := zz3; o_sal := zz3; o_dec := 7; o_asset := 1 |}).
+  {| o_ab := z3; o_sb := z3; o_sup := 0; o_ta := 0; o_aal := zz3; o_sal := zz3; o_dec := 7; o_asset := 1; o_now := 600010 |}).
 (* an allowance approved until ledger 500 must still be there at ledger 110, and be gone at 501 *)
 Definition al3 : list (list Z) := [z3; [0; 0; 40]%Z; z3].
 Definition appr : item := (AApprove 1 2 40 500 [(1, ARoot)], (Ok 0%Z, Ok 0%Z), Ok (0%Z, []),
-  {| o_ab := [0; 100; 0]%Z; o_sb := z3; o_sup := 0; o_ta := 0; o_aal := al3; o_sal := zz3; o_dec := 7; o_asset := 1 |}).
+  {| o_ab := [0; 100; 0]%Z; o_sb := z3; o_sup := 0; o_ta := 0; o_aal := al3; o_sal := zz3; o_dec := 7; o_asset := 1; o_now := 10 |}).
 Definition adv_keep : item := (Advance 100, (Ok 0%Z, Ok 0%Z), Ok (0%Z, []),
-  {| o_ab := [0; 100; 0]%Z; o_sb := z3; o_sup := 0; o_ta := 0; o_aal := al3; o_sal := zz3; o_dec := 7; o_asset := 1 |}).
-Definition adv_lapsed_early : item := (Advance 100, (Ok 0%Z, Ok 0%Z), Ok (0%Z, []), funded).
-Definition adv_expire : item := (Advance 391, (Ok 0%Z, Ok 0%Z), Ok (0%Z, []), funded).
+  {| o_ab := [0; 100; 0]%Z; o_sb := z3; o_sup := 0; o_ta := 0; o_aal := al3; o_sal := zz3; o_dec := 7; o_asset := 1; o_now := 110 |}).
+Definition funded_at (t : Z) : obs := {| o_ab := [0; 100; 0]%Z; o_sb := z3; o_sup := 0; o_ta := 0; o_aal := zz3; o_sal := zz3; o_dec := 7; o_asset := 1; o_now := t |}.
+Definition adv_lapsed_early : item := (Advance 100, (Ok 0%Z, Ok 0%Z), Ok (0%Z, []), funded_at 110).
+Definition adv_expire : item := (Advance 391, (Ok 0%Z, Ok 0%Z), Ok (0%Z, []), funded_at 501).
 Definition adv_survives_expiry : item := (Advance 391, (Ok 0%Z, Ok 0%Z), Ok (0%Z, []),
-  {| o_ab := [0; 100; 0]%Z; o_sb := z3; o_sup := 0; o_ta := 0; o_aal := al3; o_sal := zz3; o_dec := 7; o_asset := 1 |}).
+  {| o_ab := [0; 100; 0]%Z; o_sb := z3; o_sup := 0; o_ta := 0; o_aal := al3; o_sal := zz3; o_dec := 7; o_asset := 1; o_now := 501 |}).
 
 Example monitor_accepts_long_gap : monitor (hdr0, [fund1; don; good_dep; adv_ok]) = 0.
 Proof. vm_compute. reflexivity. Qed.
@@ -585,4 +658,76 @@ Proof. vm_compute. reflexivity. Qed.
 Example monitor_rejects_allowance_lapsed_early : monitor (hdr0, [fund1; appr; adv_lapsed_early]) = 3.
 Proof. vm_compute. reflexivity. Qed.
 Example monitor_rejects_allowance_outliving : monitor (hdr0, [fund1; appr; adv_keep; adv_survives_expiry]) = 4.
+Proof. vm_compute. reflexivity. Qed.
+
+(* ---------- malformed traces are rejected by the monitor itself (nothing about the trace is assumed) ---------- *)
+(* an observation with a missing entry *)
+Definition short_obs : item := (AMint 1 100, (Ok 0%Z, Ok 0%Z), Ok (0%Z, []),
+  {| o_ab := [0; 100]%Z; o_sb := z3; o_sup := 0; o_ta := 0; o_aal := zz3; o_sal := zz3; o_dec := 7; o_asset := 1; o_now := 10 |}).
+Example monitor_rejects_short_observation : monitor (hdr0, [short_obs]) = 1.
+Proof. vm_compute. reflexivity. Qed.
+(* an empty observation *)
+Definition no_obs : item := (AMint 1 100, (Ok 0%Z, Ok 0%Z), Ok (0%Z, []),
+  {| o_ab := []; o_sb := []; o_sup := 0; o_ta := 0; o_aal := []; o_sal := []; o_dec := 7; o_asset := 1; o_now := 10 |}).
+Example monitor_rejects_empty_observation : monitor (hdr0, [no_obs]) = 1.
+Proof. vm_compute. reflexivity. Qed.
+(* a party outside the observed universe (its balance would not be seen) *)
+Definition outside : item := (AMint 7 100, (Ok 0%Z, Ok 0%Z), Ok (0%Z, []), h_obs0 hdr0).
+Example monitor_rejects_address_outside_universe : monitor (hdr0, [outside]) = 1.
+Proof. vm_compute. reflexivity. Qed.
+(* the vault's own address among the signers *)
+Definition vault_signs : item := (ATransfer 0 1 0 [(0, ARoot)], (Ok 0%Z, Ok 0%Z), Fail, h_obs0 hdr0).
+Example monitor_rejects_vault_signature : monitor (hdr0, [vault_signs]) = 1.
+Proof. vm_compute. reflexivity. Qed.
+(* the host clock disagrees with the Advance calls *)
+Definition clock_off : item := (Advance 5, (Ok 0%Z, Ok 0%Z), Ok (0%Z, []), funded_at 16).
+Example monitor_rejects_wrong_clock : monitor (hdr0, [fund1; clock_off]) = 2.
+Proof. vm_compute. reflexivity. Qed.
+(* a "fresh" vault that already holds something / a first observation that is not the empty one *)
+Example monitor_rejects_nonempty_first_observation :
+  monitor ({| h_cfg := cfg0; h_n := 3; h_now := 10%Z; h_ctor := Ok 7%Z; h_obs0 := funded |}, []) = 1.
+Proof. vm_compute. reflexivity. Qed.
+(* an empty universe; calls on a vault whose constructor failed *)
+Example monitor_rejects_empty_universe :
+  monitor ({| h_cfg := cfg0; h_n := 0; h_now := 10%Z; h_ctor := Ok 7%Z; h_obs0 := empty_obs cfg0 0 10 |}, []) = 1.
+Proof. vm_compute. reflexivity. Qed.
+Example monitor_rejects_calls_after_failed_constructor :
+  monitor ({| h_cfg := {| c_off := 11; c_max_off := 10; c_adec := 7; c_max_ttl := 1000 |}; h_n := 3; h_now := 10%Z;
+              h_ctor := Fail; h_obs0 := h_obs0 hdr0 |}, [fund1]) = 1.
+Proof. vm_compute. reflexivity. Qed.
+(* Advance that changes total_assets() / a failing call that moves the clock *)
+Definition adv_ta : item := (Advance 5, (Ok 0%Z, Ok 0%Z), Ok (0%Z, []),
+  {| o_ab := [0; 100; 0]%Z; o_sb := z3; o_sup := 0; o_ta := 3; o_aal := zz3; o_sal := zz3; o_dec := 7; o_asset := 1; o_now := 15 |}).
+Example monitor_rejects_advance_changing_total_assets : monitor (hdr0, [fund1; adv_ta]) = 2.
+Proof. vm_compute. reflexivity. Qed.
+Definition fail_moves_clock : item := (Redeem 5 1 1 1 [(1, ARoot)], (Ok 0%Z, Ok 0%Z), Fail, funded_at 11).
+Example monitor_rejects_failed_call_moving_clock : monitor (hdr0, [fund1; fail_moves_clock]) = 2.
+Proof. vm_compute. reflexivity. Qed.
+
+(* ---------- "nothing is created": the reviewer's hand-made histories ---------- *)
+Definition dep100 : item := (Deposit 100 1 1 1 [(1, AFull)], (Ok 100%Z, Ok MAX128), Ok (100%Z, [(0, 1, 1, 1, 100%Z, 100%Z)]),
+  {| o_ab := [100; 0; 0]%Z; o_sb := [0; 100; 0]%Z; o_sup := 100; o_ta := 100; o_aal := zz3; o_sal := zz3; o_dec := 7; o_asset := 1; o_now := 10 |}).
+(* operator 2 has no allowance, redeems owner 1's shares to himself; the allowance getter then reads -100 *)
+Definition red_no_allowance : item := (Redeem 100 2 1 2 [(2, ARoot)], (Ok 100%Z, Ok 100%Z), Ok (100%Z, [(1, 2, 2, 1, 100%Z, 100%Z)]),
+  {| o_ab := [0; 0; 100]%Z; o_sb := z3; o_sup := 0; o_ta := 0; o_aal := zz3; o_sal := [z3; [0; 0; -100]%Z; z3]; o_dec := 7; o_asset := 1; o_now := 10 |}).
+Example monitor_rejects_operator_without_allowance : monitor (hdr0, [fund1; dep100; red_no_allowance]) = 3.
+Proof. vm_compute. reflexivity. Qed.
+(* a deposit of assets the depositor does not hold *)
+Definition dep_unfunded : item := (Deposit 100 1 1 1 [(1, AFull)], (Ok 100%Z, Ok MAX128), Ok (100%Z, [(0, 1, 1, 1, 100%Z, 100%Z)]),
+  {| o_ab := [100; -100; 0]%Z; o_sb := [0; 100; 0]%Z; o_sup := 100; o_ta := 100; o_aal := zz3; o_sal := zz3; o_dec := 7; o_asset := 1; o_now := 10 |}).
+Example monitor_rejects_deposit_without_funds : monitor (hdr0, [dep_unfunded]) = 1.
+Proof. vm_compute. reflexivity. Qed.
+(* a negative share transfer signed by the beneficiary; a negative donation *)
+Definition neg_share_transfer : item := (STransfer 2 1 (-100) [(2, ARoot)], (Ok 0%Z, Ok 0%Z), Ok (0%Z, []),
+  {| o_ab := [100; 0; 0]%Z; o_sb := [0; 0; 100]%Z; o_sup := 100; o_ta := 100; o_aal := zz3; o_sal := zz3; o_dec := 7; o_asset := 1; o_now := 10 |}).
+Example monitor_rejects_negative_share_transfer : monitor (hdr0, [fund1; dep100; neg_share_transfer]) = 3.
+Proof. vm_compute. reflexivity. Qed.
+Definition neg_donation : item := (ATransfer 1 0 (-50) [(1, ARoot)], (Ok 0%Z, Ok 0%Z), Ok (0%Z, []),
+  {| o_ab := [50; 50; 0]%Z; o_sb := [0; 100; 0]%Z; o_sup := 100; o_ta := 50; o_aal := zz3; o_sal := zz3; o_dec := 7; o_asset := 1; o_now := 10 |}).
+Example monitor_rejects_negative_donation : monitor (hdr0, [fund1; dep100; neg_donation]) = 3.
+Proof. vm_compute. reflexivity. Qed.
+(* shares that exist before anybody deposited *)
+Example monitor_rejects_premined_shares :
+  monitor ({| h_cfg := cfg0; h_n := 3; h_now := 10%Z; h_ctor := Ok 7%Z;
+              h_obs0 := {| o_ab := z3; o_sb := [0; 0; 50]%Z; o_sup := 0; o_ta := 0; o_aal := zz3; o_sal := zz3; o_dec := 7; o_asset := 1; o_now := 10 |} |}, []) = 1.
 Proof. vm_compute. reflexivity. Qed.
